@@ -16,7 +16,8 @@ from .. import cards, cells, common
 
 SF_KINDS = ["F2", "FL", "F3", "g1", "gL", "g4"]
 XS_KINDS = ["XSHERANC", "XSHERANCAVG", "XSHERACC", "XSCHORUSCC", "XSNUTEVCC", "XSNUTEVNU", "FW", "F1", "g5", "XSFPFCC"]
-XVAL = {"in": None, "zero": 0.0, "negative": -0.1, "above1": 1.2, "belowgrid": 1e-4, "one": 1.0}
+XVAL = {"in": None, "zero": 0.0, "negative": -0.1, "above1": 1.2, "belowgrid": 1e-4, "one": 1.0,
+        "justbelow": "first node times (1 - 5e-6)"}
 QVAL = {"pos": None, "zero": 0.0, "negative": -1.0}
 
 
@@ -31,7 +32,7 @@ def execute(ob):
     kins = o["observables"][name]
     if XVAL[ob["xc"]] is not None:
         for k in kins:
-            k["x"] = XVAL[ob["xc"]]
+            k["x"] = XVAL[ob["xc"]] if ob["xc"] != "justbelow" else min(o["interpolation_xgrid"]) * (1 - 5e-6)
     if ob["xc"] == "above1":
         # low virtuality: the Nachtmann variable xi(x) of an unphysical x > 1 falls back below 1
         for k in kins:
@@ -97,7 +98,10 @@ def run(ctx):
                                      ORDERS={"11"} if q else {"11", "22"}, PROJS={"e-", "nu"}, FLAVS={"total", "charm"}), spec=None))
     cfgs.append(common.cfg_text(dict(base, KINDS={"F2", "FL", "F3", "g1", "XSHERANC"}, SCHEMES={"ZM4"}, ORDERS={"11"}, PROJS={"e-"},
                                      FLAVS={"total"}, PROCS={"NC"}, TMCS={0, 1, 2, 3},
-                                     XCS={"in", "zero", "negative", "above1", "belowgrid", "one"},
+                                     XCS={"in", "zero", "negative", "above1", "belowgrid", "justbelow", "one"},
+                                     QCS={"pos", "zero", "negative"}), spec=None))
+    cfgs.append(common.cfg_text(dict(base, KINDS={"XSFPFCC", "XSCHORUSCC", "FW", "XSNUTEVCC"}, SCHEMES={"ZM4"}, ORDERS={"11"}, PROJS={"nu"},
+                                     FLAVS={"total"}, PROCS={"CC"}, TMCS={0, 1}, XCS={"in", "zero", "negative", "above1", "belowgrid", "justbelow", "one"},
                                      QCS={"pos", "zero", "negative"}), spec=None))
     # the scale-variation switches in every combination
     cfgs.append(common.cfg_text(dict(base, KINDS={"F2", "F3", "XSHERANC"} if q else {"F2", "FL", "F3", "g1", "XSHERANC", "XSCHORUSCC"},
